@@ -1,5 +1,5 @@
-// C05 — Krylov iterates, real systems (double). Body: c05_krylov.hpp (rev 1)
+// C05 — Krylov iterates vs textbook references and least-squares optimality, real systems. Body: c05_krylov.hpp (rev 3)
 #include "c05_krylov.hpp"
-static std::vector<vf::Prop> props() { return c05::props<double>("real"); }
+static std::vector<vf::Prop> props() { return c05::props_iter<double>("real"); }
 static std::vector<vf::Enum> enums() { return {}; }
 VF_MAIN(props(), enums())
